@@ -475,13 +475,21 @@ def real_reconcile(case, policy, hashseed, to_stdout):
         shutil.rmtree(scratch, ignore_errors=True)
 
 
-def real_check(run, case):
+def real_check(run, case, real_results=None):
     """Simulated process vs real process, same command: exit status, printed minimum and the
-    set of written solutions must agree (ALL), the real ANY line must belong to that set."""
+    set of written solutions must agree (ALL), the real ANY line must belong to that set.
+    `real_results` may hold the outcomes of the real processes when they were already run
+    (concurrently, by the post phase); a replay runs them here."""
     cfg = case["real"]
     sim_status, sim_printed, sim_lines = simulated_reconcile(case, "all", cfg["order"], False)
+
+    def real(policy, hashseed, to_stdout):
+        if real_results is not None:
+            return real_results[policy, hashseed]
+        return real_reconcile(case, policy, hashseed, to_stdout)
+
     for hashseed in cfg["hashseeds"]:
-        status, printed, lines = real_reconcile(case, "all", hashseed, False)
+        status, printed, lines = real("all", hashseed, False)
         run.check((status, printed, lines) == (sim_status, sim_printed, sim_lines), ("C12",),
                   "C12.real-process-differs",
                   lambda: f"reconcile {case['algo']} --solutions all as a real process under "
@@ -490,7 +498,7 @@ def real_check(run, case):
                           f"printed {sim_printed}, {len(sim_lines)} lines; only real "
                           f"{sorted(set(lines) - set(sim_lines))[:1]}; only simulated "
                           f"{sorted(set(sim_lines) - set(lines))[:1]}; document {_plain_doc(case)}")
-        status, printed, any_lines = real_reconcile(case, "any", hashseed, True)
+        status, printed, any_lines = real("any", hashseed, True)
         run.check(status == sim_status and printed == sim_printed
                   and set(any_lines) <= set(sim_lines), ("C12",), "C12.real-process-differs",
                   lambda: f"reconcile {case['algo']} --solutions any to stdout as a real process "
@@ -519,15 +527,29 @@ def post_phase(pid, tier, base_seed, cases):
         picked.append(case)
     out = {"evaluations": 0, "checks": 0, "faults": {}, "probes": {"real_cases": len(picked)},
            "failure": None, "digests": []}
-    for i, case in enumerate(picked):
-        real_case = dict(case, fault=None, prior=None, short_io=False,
-                         env={"locale": "utf-8", "strict_warnings": False, "unicode_name": False},
-                         real={"hashseeds": [derive_seed(base_seed, "e4-real", i, j) % 4294967295
-                                             for j in range(2)],
-                               "order": 1 + i % 7})
+    import concurrent.futures
+
+    real_cases = [
+        dict(case, fault=None, prior=None, short_io=False,
+             env={"locale": "utf-8", "strict_warnings": False, "unicode_name": False},
+             real={"hashseeds": [derive_seed(base_seed, "e4-real", i, j) % 4294967295
+                                 for j in range(2)],
+                   "order": 1 + i % 7})
+        for i, case in enumerate(picked)]
+    # the real child processes only wait for the operating system: run them side by side
+    with concurrent.futures.ThreadPoolExecutor(max_workers=8) as pool:
+        futures = {}
+        for i, real_case in enumerate(real_cases):
+            for hashseed in real_case["real"]["hashseeds"]:
+                for policy, to_stdout in (("all", False), ("any", True)):
+                    futures[i, policy, hashseed] = pool.submit(
+                        real_reconcile, real_case, policy, hashseed, to_stdout)
+        outcomes = {key: fut.result() for key, fut in futures.items()}
+    for i, (case, real_case) in enumerate(zip(picked, real_cases)):
         run = Run(pid)
         try:
-            real_check(run, real_case)
+            real_check(run, real_case, {(policy, hs): outcomes[i, policy, hs]
+                                        for (j, policy, hs) in outcomes if j == i})
         except Violation as v:
             if out["failure"] is None:
                 out["failure"] = {"case": real_case, "label": v.label, "message": v.message}
